@@ -61,6 +61,11 @@ CHECKS = {
             "Generated interleavings of client datagrams, backend datagrams, backend resolutions (prompt, late, duplicate, stale), clock advances, timeouts (exact, late, and early as the timer wheel can fire), cap / affinity / PROXY-v2 / cluster reconfiguration, drain and mass teardown; after every call the drained outputs are compared with the model: one backend per flow for its whole life, replies only to the flow's client, payloads at most once and in order, PROXY-v2 prefix validated, admission only under the cap, each flow closed exactly once, accounting and timer consistent. Bounded exploration; the real UDP listener with sockets is not in the loop.",
             "In-process tier only (the sans-io manager); the UDP shell (sockets, timer wheel) is represented by the harness calling the manager the way lib/src/udp.rs does.",
             "DESIGN.md §4 C19"),
+    "C15": ("exploration",
+            "property-based testing of the frame decoder against an independent RFC 9113 reference decode, plus generated anomaly injection into live HTTP/2 conversations (own frame codec over TLS) judged by an expectation model written from RFC 9113",
+            "Sub-check decoder: 200 000 generated byte strings and structured frames (every type, near-miss lengths, forbidden stream ids, reserved bit, padding longer than the payload, lengths above max_frame_size in {16384, 2^24-1}) through parser::frame_header / frame_body: never panics, Ok only for a complete rule-abiding frame consuming exactly 9 + declared length with typed fields equal to the reference decode, Err class among the classes of the rules broken. Sub-check conn: a valid conversation skeleton (preface, SETTINGS exchange, 0..3 open / half-closed / closed streams to an HTTP/1.1 or h2c backend) with one generated anomaly or flood (17 families: frames on idle / even / closed / half-closed streams, CONTINUATION misuse, PRIORITY, WINDOW_UPDATE 0 / overflow, nine SETTINGS defects, PING / RST_STREAM / GOAWAY misuse, oversized frames and header lists, malformed requests, streams above the advertised limit, frames after GOAWAY, truncated frames, invalid prefaces, floods of 8..2000 frames). Oracle: the reaction on the wire is in the RFC's admissible set for the state the anomaly met (ENHANCE_YOUR_CALM admitted from the smallest documented flood threshold on), the connection is closed within 3 s after an error GOAWAY, untouched streams complete exactly, the worker stays alive and serves a fresh HTTP/2 and HTTP/1.1 probe during and after, never more streams served than advertised.",
+            "ENHANCE_YOUR_CALM is only admitted, never required; the serializer round trip, HPACK budgets in-process and the coverage-guided fuzz targets of the design are not part of this check (see /verif/fuzz for the fuzz targets).",
+            "DESIGN.md §4 C15"),
     "C16": ("exploration",
             "stateful property-based testing (proptest) of the worker's SessionManager against a multiset model of live sessions and per-(cluster, IP) slots",
             "Generated histories of accept / request-through-the-per-IP-gate / close / runtime limit changes / per-cluster overrides on the real SessionManager, called exactly as the mux router and tcp sessions call it; admission verdicts, connection count, accept hysteresis, per-IP verdict == (slots taken >= limit in force) without false refusals, and return to zero after all sessions closed. The live-worker part (gauges, buffers, slab entries, timers, storms above max_connections) is a wire-lab check not built yet.",
